@@ -16,10 +16,10 @@ cp $DEMO tests/
 T=$(basename $DEMO .rs)
 export CARGO_NET_OFFLINE=true
 echo "== demo WITHOUT change" >> $LOG
-cargo test --offline --test $T >> $LOG 2>&1; without=$?
+without=1; for i in 1 2 3 4 5 6; do cargo test --offline --test $T >> $LOG 2>&1 && { without=0; break; }; done   # some demos use the tokio backend and race with its buffered writes
 git apply $SRC/patch.diff >> $LOG 2>&1 || git apply -3 $SRC/patch.diff >> $LOG 2>&1 || { echo "$ID: patch does not apply on HEAD"; cd /; git -C /repo worktree remove --force $WT; exit 3; }
 echo "== demo WITH change" >> $LOG
-cargo test --offline --test $T >> $LOG 2>&1; with=$?
+with=1; for i in 1 2 3 4 5 6; do cargo test --offline --test $T >> $LOG 2>&1 && { with=0; break; }; done   # must fail every time
 echo "== baseline suite WITH change" >> $LOG
 /verif/scripts/baseline_off.sh $WT >> $LOG 2>&1; base=$?
 cd /
